@@ -117,8 +117,84 @@ def arrays(case):
     out = []
     for s, c in zip(case["sensors"], case["factors"]):
         M = G[s, :] * np.array(c, dtype=float)[None, :]
-        out.append(M.real.copy() if case["dtype"] == "real" else M.astype(complex))
+        dt = case["dtypes"][len(out)] if case.get("dtypes") else ("float64" if case["dtype"] == "real" else "complex128")
+        A = M.astype(complex) if dt.startswith("complex") else M.real.copy()
+        A = np.rint(A).astype(np.int64) if dt == "int64" else A.astype(dt)
+        if not np.array_equal(A.astype(complex), M):  # the cast must not change a value (generator contract)
+            raise AssertionError("setup %d is not exactly representable as %s" % (len(out), dt))
+        out.append(A)
     return G, out
+
+
+def low_precision(MS):
+    return any(np.asarray(M).dtype in (np.float32, np.complex64) for M in MS)
+
+
+def phi_tol(MS):
+    """float32 inputs make the implementation compute the scale factor in float32 (eps 6e-8): judged at 1e-5, else 1e-9"""
+    return 1e-5 if low_precision(MS) else TOL
+
+
+INT_FACTORS = [1, 2, 3, 4, 5, 6, 7, 8, 9, 10, 11, 12, 13, 14, 15, 16, 18, 20]  # integers of the form 2^k (1 + j/8)
+
+
+def gen_mixed(rng, sensors, refs, nsens, nm, plan=None):
+    """(G, factors, dtypes, plan) with setups of DIFFERENT array dtypes, every setup still an exact re-scaled restriction:
+    int-first      first setup int64 (integer G on its sensors, integer factors), later float64 / complex128
+    real-first     first setup float64, a later setup complex128 (imaginary parts only on sensors the first setup lacks)
+    float32        some or all setups float32 (values have short mantissas)
+    int-later      first setup float64, a later setup int64 (integer G on its sensors, integer factors)"""
+    plan = plan or rng.choice(["int-first", "int-first", "real-first", "real-first", "float32", "int-later"])
+    nset = len(sensors)
+    ref_ids = [sensors[0][p] for p in refs[0]]
+    first = set(sensors[0])
+    if plan == "real-first" and not any(sid not in first for s_ in sensors[1:] for sid in s_):
+        plan = "float32"  # no sensor outside the first setup: nothing can be complex while the first setup stays real
+    for _ in range(200):
+        G = gen_global(rng, nsens, nm, False)
+        factors = [[gen_factor(rng) for _ in range(nm)] for _ in sensors]
+        dtypes = ["float64"] * nset
+        if plan in ("int-first", "int-later"):
+            who = 0 if plan == "int-first" else rng.randint(1, nset - 1)
+            for sid in sensors[who]:
+                for z in G[sid]:
+                    z[0] = float(rng.choice([-1, 1]) * rng.randint(1, 9))
+            factors[who] = [float(rng.choice([-1, 1]) * rng.choice(INT_FACTORS)) for _ in range(nm)]
+            dtypes[who] = "int64"
+        if plan in ("int-first", "real-first"):
+            # imaginary parts only where the first setup does not measure: the first setup stays real / integer
+            cands = [i for i in range(1, nset) if any(sid not in first for sid in sensors[i])]
+            for i in (rng.sample(cands, rng.randint(1, len(cands))) if cands else []):
+                if plan == "int-first" and rng.random() < 0.3:
+                    continue
+                for sid in sensors[i]:
+                    if sid not in first:
+                        for z in G[sid]:
+                            z[1] = rng.choice([-1, 1]) * rng.randint(1, 24) / 8.0
+                dtypes[i] = "complex128"
+            for i in range(1, nset):  # a sensor made complex above may also sit in another setup
+                if any(G[sid][k][1] != 0 for sid in sensors[i] for k in range(nm)):
+                    dtypes[i] = "complex128"
+        if plan == "float32":
+            for i in range(nset):
+                if i == 0 or rng.random() < 0.6:
+                    dtypes[i] = "float32"
+        if len(set(dtypes)) < 2 and plan != "float32":
+            continue
+        if all(not isotropic(G, ref_ids, k) for k in range(nm)):
+            return G, factors, dtypes, plan
+    raise RuntimeError("no mixed-dtype case drawn for plan %s" % plan)
+
+
+def gen_mixed_case(rng, plan=None):
+    for _ in range(100):
+        sensors, refs, nsens = gen_layout(rng)
+        if sum(len(s) - len(r) for s, r in zip(sensors[1:], refs[1:])) == 0:
+            continue
+        nm = rng.randint(1, 6)
+        G, factors, dtypes, plan_ = gen_mixed(rng, sensors, refs, nsens, nm, plan)
+        return dict(kind="merge", G=G, sensors=sensors, refs=refs, factors=factors, dtype="mixed", dtypes=dtypes, plan=plan_)
+    raise RuntimeError("no layout with roving sensors drawn")
 
 
 # ----------------------------------------------------------------------------------------------------------------------
@@ -277,7 +353,7 @@ def stub_classes():
 SCALES = [-12, -11, -10, -9, -8, -6, -4, -2, 2, 4, 6, 8, 9, 10, 11, 12]
 
 
-def gen_algs(rng, sensors, refs, nsens, nalg, scale=None):
+def gen_algs(rng, sensors, refs, nsens, nalg, scale=None, mixed=None):
     nset = len(sensors)
     algs = []
     for a in range(nalg):
@@ -294,18 +370,26 @@ def gen_algs(rng, sensors, refs, nsens, nalg, scale=None):
         sub["Xi"] = [[x if const else x + rng.randint(-8, 8) / 8192.0 for x in base_x] for _ in range(nset)]
         if scale is not None:
             sub["scale10"] = scale
+        elif mixed or (mixed is None and rng.random() < 0.25 and sum(len(s) - len(r) for s, r in zip(sensors[1:], refs[1:])) > 0):
+            sub["G"], sub["factors"], sub["dtypes"], sub["plan"] = gen_mixed(rng, sensors, refs, nsens, nm)
+            sub["dtype"] = "mixed"
         elif rng.random() < 0.3:
             sub["scale10"] = rng.choice(SCALES)
+        if rng.random() < 0.3:
+            sub["xi_list"] = True  # merge_results builds np.array(all_xi): plain lists are accepted there
         algs.append(sub)
     return algs
 
 
-def gen_e2e_case(rng, scale=None, **kw):
+def gen_e2e_case(rng, scale=None, mixed=None, **kw):
     """nset SingleSetups x nalg algorithms; algorithm a has its own global table, mode count, factors, Fn, Xi (and
     overall unit 10^k); the sensor layout (and so ref_ind) is shared."""
-    sensors, refs, nsens = gen_layout(rng, **kw)
+    while True:
+        sensors, refs, nsens = gen_layout(rng, **kw)
+        if not mixed or sum(len(s) - len(r) for s, r in zip(sensors[1:], refs[1:])) > 0:
+            break
     nalg = rng.randint(1, 3)
-    return dict(kind="e2e", sensors=sensors, refs=refs, algs=gen_algs(rng, sensors, refs, nsens, nalg, scale),
+    return dict(kind="e2e", sensors=sensors, refs=refs, algs=gen_algs(rng, sensors, refs, nsens, nalg, scale, mixed),
                 names=["grp_%s" % "xyz"[a] for a in range(nalg)])
 
 
@@ -327,7 +411,7 @@ def gen_hist_case(rng):
 
 def payload(sub, i):
     _, MS = arrays(sub)
-    return dict(Fn=np.array(sub["Fn"][i]), Xi=np.array(sub["Xi"][i]), Phi=MS[i])
+    return dict(Fn=np.array(sub["Fn"][i]), Xi=list(sub["Xi"][i]) if sub.get("xi_list") else np.array(sub["Xi"][i]), Phi=MS[i])
 
 
 def build_poser(case, algs, classes):
@@ -372,7 +456,7 @@ def judge_result(r, sub):
     """Property text on one merged result against the CURRENT results of the setups.  [(field, text)]"""
     bad = []
     want_phi, _ = expected_merged(sub)
-    if np.asarray(r.Phi).shape != want_phi.shape or not close_rel(r.Phi, want_phi):
+    if np.asarray(r.Phi).shape != want_phi.shape or not close_rel(r.Phi, want_phi, tol=phi_tol(arrays(sub)[1])):
         bad.append(("Phi", "Phi is not the global shape of that algorithm in the first setup's scale"))
     for what, rows, mean_got, disp_got in (("Fn", sub["Fn"], r.Fn, r.Fn_cov), ("Xi", sub["Xi"], r.Xi, r.Xi_cov)):
         mean_want, disp_want = pop_stats(rows)
@@ -494,7 +578,7 @@ def judge_merge(case):
         return got, ("C02:merge_mode_shapes:shape", "gen.merge_mode_shapes: result has shape %s, property says (%d rows = references + all "
                      "roving, %d modes)" % (got.shape, want.shape[0], want.shape[1])), iso, illc
     keep = [k for k in range(nm) if k not in iso and k not in illc]
-    if keep and not close_rel(got[:, keep], want[:, keep]):
+    if keep and not close_rel(got[:, keep], want[:, keep], tol=phi_tol(MS)):
         g, w = got[:, keep], want[:, keep]
         if not np.all(np.isfinite(g)):
             detail = "merged contains NaN/inf"
@@ -510,7 +594,8 @@ def judge_merge(case):
 
 def sub_case(case, setups, modes):
     return dict(case, G=[[row[k] for k in modes] for row in case["G"]], sensors=[list(case["sensors"][i]) for i in setups],
-                refs=[list(case["refs"][i]) for i in setups], factors=[[case["factors"][i][k] for k in modes] for i in setups])
+                refs=[list(case["refs"][i]) for i in setups], factors=[[case["factors"][i][k] for k in modes] for i in setups],
+                **({"dtypes": [case["dtypes"][i] for i in setups]} if case.get("dtypes") else {}))
 
 
 def drop_channel(case, i, p):
@@ -589,7 +674,7 @@ def run(ctx):
     def add_merge(kind, case, got, MS, refs):
         for e, a, b in merge_exprs(MS, refs):
             exprs.append(e)
-            meta.append((kind, case, (got, a, b)))
+            meta.append((kind, case, (got, a, b, phi_tol(MS))))
 
     # ------------------------------------------------------------------------------------------------ merge_mode_shapes
     def do_merge(case):
@@ -600,7 +685,7 @@ def run(ctx):
         ctx.hist("setups", len(case["sensors"]))
         ctx.hist("nref", len(case["refs"][0]))
         ctx.hist("modes", len(case["G"][0]))
-        ctx.hist("dtype", case["dtype"])
+        ctx.hist("dtype", case["dtype"] if not case.get("dtypes") else "mixed:" + case.get("plan", "?"))
         ctx.hist("roving_total", sum(len(s) - len(r) for s, r in zip(case["sensors"], case["refs"])))
         ctx.sample(case)
         if bad:
@@ -668,6 +753,7 @@ def run(ctx):
         ctx.hist("e2e_algs", len(case["algs"]))
         for sub in case["algs"]:
             ctx.hist("e2e_scale10", sub.get("scale10", 0))
+            ctx.hist("e2e_dtypes", sub.get("plan", sub["dtype"]))
         ctx.count(case, nontrivial=True)
         try:
             res = run_e2e(case, classes)
@@ -850,9 +936,9 @@ def run(ctx):
                     ctx.fail("correspondence", "model merge_mode_shapes returns %s where %s returns a table" % (s, where), case,
                              key="C02:%s:corr-error" % kind)
                     continue
-                got, a, b = got
+                got, a, b, tol = got
                 M = parse_cmat(s[3:])
-                if got.ndim != 2 or got.shape[0] < b or M.shape != got[a:b].shape or not close_rel(got[a:b], M, scale=got):
+                if got.ndim != 2 or got.shape[0] < b or M.shape != got[a:b].shape or not close_rel(got[a:b], M, tol=tol, scale=got):
                     ctx.fail("correspondence", "%s differs from model merge_mode_shapes" % where, case, key="C02:%s:corr" % kind)
             elif kind == "malformed":
                 if (s.startswith("ok:")) != (got == "no exception"):
@@ -926,6 +1012,11 @@ def run(ctx):
             ks += [rng.randint(-12, 12) or 1, rng.randint(-12, 12) or -1]
         ctx.hist("stream", "scale")
         do_scale(base, ks)
+
+    # setups of different array dtypes (int64 / float64 / float32 / complex128), every setup still an exact re-scaled restriction
+    for j in range(ctx.n(24, 200)):
+        ctx.hist("stream", "mixed-dtype")
+        do_merge(gen_mixed_case(rng, ["int-first", "real-first", "float32", "int-later"][j % 4] if j < 8 else None))
 
     # special global shapes inside the hypothesis: purely imaginary, real part (or imaginary part) zero on the references only,
     # a zero entry at the first / at all but one reference sensor
@@ -1005,6 +1096,9 @@ def run(ctx):
     for j in range(ctx.n(6, 40)):  # end to end in other units
         ctx.hist("stream", "e2e-scale")
         do_e2e(gen_e2e_case(rng, scale=[-12, 12, -9, 9, -10, -11][j % 6] if j < 12 else rng.choice(SCALES), nset=rng.randint(2, 3), max_rov=3))
+    for j in range(ctx.n(8, 60)):  # end to end with setups of different array dtypes
+        ctx.hist("stream", "e2e-mixed-dtype")
+        do_e2e(gen_e2e_case(rng, mixed=True, nset=rng.randint(2, 4), max_rov=3))
     for _ in range(ctx.n(16, 150)):  # histories on one PoSER object
         ctx.hist("stream", "e2e-history")
         do_hist(gen_hist_case(rng))
